@@ -1105,7 +1105,7 @@ pub fn run(scenario: u32, choices: &[u8], _strict: bool) -> Outcome {
       o.labels = r.labels;
       o.label(if scenario == 3 { "stateful-reader-script" } else { "stateful-writer-script" });
       if o.labels.contains(&"writer-repair-frags-never-drain") {
-        let detail = format!("after the script (every datagram in it is well-formed) and 20 further timer rounds without any traffic a reader proxy still has repair fragments on request: the SendRepairFrags timer re-arms itself for ever (every millisecond in production). {}", o.sample.chars().take(1500).collect::<String>());
+        let detail = format!("after the script (every datagram in it is well-formed) and 8 further timer rounds without any traffic a reader proxy still has repair fragments on request: the SendRepairFrags timer re-arms itself for ever (every millisecond in production). {}", o.sample.chars().take(1500).collect::<String>());
         o.violate("c06.perpetual-work", "writer:repair-frags", detail);
       }
     }
